@@ -263,7 +263,7 @@ func runNoSampler(e *simcore.Env, tp *simcore.Tape) {
 	synctest.Test(e.T, func(*testing.T) {
 		knobDesc, knobRestore := simknobs.Draw(tp, "trace", "sidx")
 		defer knobRestore()
-		e.Event("%s", knobDesc)
+		simknobs.Record(e, knobDesc)
 		s := wl.GenTraceSchema(tp, wl.TraceSchemaOpts{})
 		repo := simmeta.New()
 		s.Install(repo)
@@ -743,7 +743,7 @@ func runSampler(e *simcore.Env, tp *simcore.Tape, gated bool) {
 	synctest.Test(e.T, func(*testing.T) {
 		knobDesc, knobRestore := simknobs.Draw(tp, "trace", "sidx")
 		defer knobRestore()
-		e.Event("%s", knobDesc)
+		simknobs.Record(e, knobDesc)
 		var gatesOn atomic.Bool
 		armed := map[string]bool{}
 		if gated {
